@@ -28,9 +28,9 @@ Extract/C17x.vos Extract/C17x.vok Extract/C17x.required_vos: Extract/C17x.v Mode
 Extract/C18x.vo Extract/C18x.glob Extract/C18x.v.beautified Extract/C18x.required_vo: Extract/C18x.v gen/C18Tables.vo Model/Control.vo Spec/C18.vo Spec/C18Judge.vo
 Extract/C18x.vio: Extract/C18x.v gen/C18Tables.vio Model/Control.vio Spec/C18.vio Spec/C18Judge.vio
 Extract/C18x.vos Extract/C18x.vok Extract/C18x.required_vos: Extract/C18x.v gen/C18Tables.vos Model/Control.vos Spec/C18.vos Spec/C18Judge.vos
-Extract/C19x.vo Extract/C19x.glob Extract/C19x.v.beautified Extract/C19x.required_vo: Extract/C19x.v Model/WebIde.vo Spec/C19Judge.vo
-Extract/C19x.vio: Extract/C19x.v Model/WebIde.vio Spec/C19Judge.vio
-Extract/C19x.vos Extract/C19x.vok Extract/C19x.required_vos: Extract/C19x.v Model/WebIde.vos Spec/C19Judge.vos
+Extract/C19x.vo Extract/C19x.glob Extract/C19x.v.beautified Extract/C19x.required_vo: Extract/C19x.v Model/WebIde.vo Model/WebIdeDocs.vo Spec/C19Judge.vo
+Extract/C19x.vio: Extract/C19x.v Model/WebIde.vio Model/WebIdeDocs.vio Spec/C19Judge.vio
+Extract/C19x.vos Extract/C19x.vok Extract/C19x.required_vos: Extract/C19x.v Model/WebIde.vos Model/WebIdeDocs.vos Spec/C19Judge.vos
 Extract/C20x.vo Extract/C20x.glob Extract/C20x.v.beautified Extract/C20x.required_vo: Extract/C20x.v Model/Resource.vo Spec/C20Judge.vo
 Extract/C20x.vio: Extract/C20x.v Model/Resource.vio Spec/C20Judge.vio
 Extract/C20x.vos Extract/C20x.vok Extract/C20x.required_vos: Extract/C20x.v Model/Resource.vos Spec/C20Judge.vos
@@ -88,6 +88,9 @@ Model/Stbc.vos Model/Stbc.vok Model/Stbc.required_vos: Model/Stbc.v
 Model/WebIde.vo Model/WebIde.glob Model/WebIde.v.beautified Model/WebIde.required_vo: Model/WebIde.v 
 Model/WebIde.vio: Model/WebIde.v 
 Model/WebIde.vos Model/WebIde.vok Model/WebIde.required_vos: Model/WebIde.v 
+Model/WebIdeDocs.vo Model/WebIdeDocs.glob Model/WebIdeDocs.v.beautified Model/WebIdeDocs.required_vo: Model/WebIdeDocs.v Model/WebIde.vo
+Model/WebIdeDocs.vio: Model/WebIdeDocs.v Model/WebIde.vio
+Model/WebIdeDocs.vos Model/WebIdeDocs.vok Model/WebIdeDocs.required_vos: Model/WebIdeDocs.v Model/WebIde.vos
 Proofs/C02Proofs.vo Proofs/C02Proofs.glob Proofs/C02Proofs.v.beautified Proofs/C02Proofs.required_vo: Proofs/C02Proofs.v Model/StCore.vo Model/StTyping.vo Model/StRef.vo
 Proofs/C02Proofs.vio: Proofs/C02Proofs.v Model/StCore.vio Model/StTyping.vio Model/StRef.vio
 Proofs/C02Proofs.vos Proofs/C02Proofs.vok Proofs/C02Proofs.required_vos: Proofs/C02Proofs.v Model/StCore.vos Model/StTyping.vos Model/StRef.vos
@@ -121,9 +124,9 @@ Proofs/C17Proofs.vos Proofs/C17Proofs.vok Proofs/C17Proofs.required_vos: Proofs/
 Proofs/C18Proofs.vo Proofs/C18Proofs.glob Proofs/C18Proofs.v.beautified Proofs/C18Proofs.required_vo: Proofs/C18Proofs.v gen/C18Tables.vo Model/Control.vo Spec/C18.vo
 Proofs/C18Proofs.vio: Proofs/C18Proofs.v gen/C18Tables.vio Model/Control.vio Spec/C18.vio
 Proofs/C18Proofs.vos Proofs/C18Proofs.vok Proofs/C18Proofs.required_vos: Proofs/C18Proofs.v gen/C18Tables.vos Model/Control.vos Spec/C18.vos
-Proofs/C19Proofs.vo Proofs/C19Proofs.glob Proofs/C19Proofs.v.beautified Proofs/C19Proofs.required_vo: Proofs/C19Proofs.v Model/WebIde.vo
-Proofs/C19Proofs.vio: Proofs/C19Proofs.v Model/WebIde.vio
-Proofs/C19Proofs.vos Proofs/C19Proofs.vok Proofs/C19Proofs.required_vos: Proofs/C19Proofs.v Model/WebIde.vos
+Proofs/C19Proofs.vo Proofs/C19Proofs.glob Proofs/C19Proofs.v.beautified Proofs/C19Proofs.required_vo: Proofs/C19Proofs.v Model/WebIde.vo Model/WebIdeDocs.vo
+Proofs/C19Proofs.vio: Proofs/C19Proofs.v Model/WebIde.vio Model/WebIdeDocs.vio
+Proofs/C19Proofs.vos Proofs/C19Proofs.vok Proofs/C19Proofs.required_vos: Proofs/C19Proofs.v Model/WebIde.vos Model/WebIdeDocs.vos
 Proofs/C20Proofs.vo Proofs/C20Proofs.glob Proofs/C20Proofs.v.beautified Proofs/C20Proofs.required_vo: Proofs/C20Proofs.v Model/Resource.vo
 Proofs/C20Proofs.vio: Proofs/C20Proofs.v Model/Resource.vio
 Proofs/C20Proofs.vos Proofs/C20Proofs.vok Proofs/C20Proofs.required_vos: Proofs/C20Proofs.v Model/Resource.vos
@@ -178,9 +181,9 @@ Properties/C17.vos Properties/C17.vok Properties/C17.required_vos: Properties/C1
 Properties/C18.vo Properties/C18.glob Properties/C18.v.beautified Properties/C18.required_vo: Properties/C18.v gen/C18Tables.vo Model/Control.vo Spec/C18.vo Proofs/C18Proofs.vo
 Properties/C18.vio: Properties/C18.v gen/C18Tables.vio Model/Control.vio Spec/C18.vio Proofs/C18Proofs.vio
 Properties/C18.vos Properties/C18.vok Properties/C18.required_vos: Properties/C18.v gen/C18Tables.vos Model/Control.vos Spec/C18.vos Proofs/C18Proofs.vos
-Properties/C19.vo Properties/C19.glob Properties/C19.v.beautified Properties/C19.required_vo: Properties/C19.v Model/WebIde.vo Proofs/C19Proofs.vo
-Properties/C19.vio: Properties/C19.v Model/WebIde.vio Proofs/C19Proofs.vio
-Properties/C19.vos Properties/C19.vok Properties/C19.required_vos: Properties/C19.v Model/WebIde.vos Proofs/C19Proofs.vos
+Properties/C19.vo Properties/C19.glob Properties/C19.v.beautified Properties/C19.required_vo: Properties/C19.v Model/WebIde.vo Model/WebIdeDocs.vo Proofs/C19Proofs.vo
+Properties/C19.vio: Properties/C19.v Model/WebIde.vio Model/WebIdeDocs.vio Proofs/C19Proofs.vio
+Properties/C19.vos Properties/C19.vok Properties/C19.required_vos: Properties/C19.v Model/WebIde.vos Model/WebIdeDocs.vos Proofs/C19Proofs.vos
 Properties/C20.vo Properties/C20.glob Properties/C20.v.beautified Properties/C20.required_vo: Properties/C20.v Model/Resource.vo Proofs/C20Proofs.vo
 Properties/C20.vio: Properties/C20.v Model/Resource.vio Proofs/C20Proofs.vio
 Properties/C20.vos Properties/C20.vok Properties/C20.required_vos: Properties/C20.v Model/Resource.vos Proofs/C20Proofs.vos
